@@ -263,7 +263,26 @@ func shorten(s string, n int) string {
 	return s
 }
 
-// compareWithModel pipes the lines through mbmodel and records disagreements.
+// projC02 keeps what property C02 speaks about: a success with its values, the specific error of a
+// well-formed exception reply, request-timed-out; every other error is just "an error".
+func projC02(out string) string {
+	r := field(out, "r")
+	switch {
+	case strings.HasPrefix(r, "ok:"), r == "panic":
+		return r
+	case r == "err:ErrIllegalFunction", r == "err:ErrIllegalDataAddress", r == "err:ErrIllegalDataValue",
+		r == "err:ErrServerDeviceFailure", r == "err:ErrAcknowledge", r == "err:ErrServerDeviceBusy",
+		r == "err:ErrMemoryParityError", r == "err:ErrGWPathUnavailable", r == "err:ErrGWTargetFailedToRespond",
+		strings.HasPrefix(r, "err:unknown-exception"), r == "err:ErrRequestTimedOut", r == "err:ErrUnexpectedParameters":
+		return r
+	}
+	return "err"
+}
+
+// compareWithModel pipes the lines through mbmodel and records disagreements. The model's outcome
+// is the property's verdict (theorems C02_sound/complete/exception/total relate it to Spec.Reply), so
+// a difference in the C02-relevant projection is a property failure, any other difference a
+// correspondence failure.
 func compareWithModel(check string, cases []cexCase, res *Result) error {
 	lines := make([]string, len(cases))
 	for i, c := range cases {
@@ -277,7 +296,13 @@ func compareWithModel(check string, cases []cexCase, res *Result) error {
 		res.Count("reply:" + c.label)
 		res.Eval(c.key, true, shorten(c.line, 300)+" => "+shorten(c.impl, 300))
 		if outs[i] != c.impl {
-			res.Add(Finding{Kind: "correspondence", Check: check, Line: c.line, Impl: c.impl, Expect: outs[i]})
+			kind := "correspondence"
+			note := ""
+			if projC02(outs[i]) != projC02(c.impl) {
+				kind = "property"
+				note = "outcome differs from the verified model: expected " + shorten(projC02(outs[i]), 80) + ", got " + shorten(projC02(c.impl), 80) + " (reply class: " + c.label + ")"
+			}
+			res.Add(Finding{Kind: kind, Check: check, Line: c.line, Impl: c.impl, Expect: outs[i], Note: note})
 		}
 	}
 	return nil
